@@ -49,6 +49,8 @@ package rapidproto
 //@   decreases 13 - depth rank 2
 //@   note DisallowNilMessages: a message field is only ever skipped when the option is off
 //@   assert[disallow-nil-honoured] at `continue`: !opts.DisallowNilMessages
+//@   note an Any that cannot be generated (no type URL configured) is reported to the caller, which removes it
+//@   returns-result-of GeneratorOptions.genAny
 //@   loop 1: invariant 0 <= i
 //@   loop 1: decreases n - i
 
@@ -89,3 +91,5 @@ package rapidproto
 //@   property C18
 //@   mode math
 //@   no-safety
+//@   note a generated FieldMask is never empty (NoEmptyLists does not reach this special-cased generator, its own minimum does)
+//@   assert[at-least-one-path] at `paths := rapid.SliceOfN`: len(paths) >= 1
